@@ -95,6 +95,9 @@ def check(an: Analysis) -> None:
             ob1.fail(f, inits[0] if inits else None, "the attempt counter is not initialised once, by a constant, before the loop (it would be reset or unbounded)")
             continue
         c0 = inits[0].value.value
+        shared = [n for n in f.own_nodes() if isinstance(n, (ast.Nonlocal, ast.Global)) and ctr in n.names]
+        if shared:
+            ob1.fail(f, shared[0], "the attempt counter is shared between invocations (nonlocal/global): overlapping calls of the same wrapped coroutine reset or consume each other's attempts")
         bad_inc = [n for n in incs if not (isinstance(n.ast.op, ast.Add) and isinstance(n.ast.value, ast.Constant) and n.ast.value.value == 1)]
         if bad_inc or other_writes or not incs:
             ob1.fail(f, (bad_inc[0].ast if bad_inc else (other_writes[0] if other_writes else None)), "the attempt counter is not advanced by exactly `+= 1`")
@@ -226,6 +229,21 @@ def check(an: Analysis) -> None:
             missing = {"int", "float"} - numeric
             if missing:
                 ob5.fail(f, next((c for k, c in arms if k.startswith("numeric:")), m), f"delay is declared `{ann_txt}` but no arm matches {sorted(missing)}: such a value falls into the callable arm and is *called* (TypeError on the first failure)")
+        # no pause once the decision not to retry is taken (exactly limit pauses for limit+1 calls)
+        rh_entry = next(n for n in g.nodes if n.kind == "handler" and n.ast is rh)
+        raises_in_h = [n for n in g.nodes if n.kind == "raise" and within(n.ast, rh)]
+        for rn in raises_in_h:
+            w = g.search([rh_entry], lambda n, rn=rn: n is rn, skip_edge=normal_only)
+            if w is not None and any(x in sleeps for x in w):
+                ob6.fail(f, rn.ast, "a pause is taken before giving up: after the last allowed attempt the caller still waits one more delay (and the delay function gets an extra call with attempt limit+1)", CFG.show_path(w))
+            else:
+                # any path handler -> raise that passes a sleep
+                for sn in sleeps:
+                    w1 = g.search([rh_entry], lambda n, sn=sn: n is sn, skip_edge=normal_only)
+                    w2 = g.search([sn], lambda n, rn=rn: n is rn, skip_node=lambda n: n is head, skip_edge=normal_only)
+                    if w1 is not None and w2 is not None:
+                        ob6.fail(f, rn.ast, "a pause is taken before giving up: after the last allowed attempt the caller still waits one more delay (and the delay function gets an extra call with attempt limit+1)", CFG.show_path(w1 + w2[1:]))
+                        break
         # per-arm pauses
         for k, case in arms:
             cn = next((n for n in g.nodes if n.kind == "match-case" and n.ast is case), None)
